@@ -130,6 +130,17 @@ theorem dinv_setPh {c : CCfg2} {s : St} (tid : Nat) (ph' : Phase) (hI : DInv c s
     ⟨Nat.le_refl _, fun _ _ => rfl, Nat.le_refl _, fun _ _ => rfl, fun _ _ => rfl⟩ hI.bstartLe hI.dicts hI.attrF hI.attrP hI.ents
     (hI.thr tid)
 
+theorem dinv_popTo {c : CCfg2} {s : St} (tid : Nat) (ph' : Phase) (rest : List Bool) (hI : DInv c s) :
+    DInv c (popTo s tid ph' rest) :=
+  dinv_upd tid { s.thr tid with ph := ph', stack := rest } hI rfl
+    ⟨Nat.le_refl _, fun _ _ => rfl, Nat.le_refl _, fun _ _ => rfl, fun _ _ => rfl⟩ hI.bstartLe hI.dicts hI.attrF hI.attrP hI.ents
+    (hI.thr tid)
+
+theorem dinv_pushTest {c : CCfg2} {s : St} (tid : Nat) (b : Bool) (hI : DInv c s) : DInv c (pushTest s tid b) :=
+  dinv_upd tid { s.thr tid with ph := .test, stack := b :: (s.thr tid).stack } hI rfl
+    ⟨Nat.le_refl _, fun _ _ => rfl, Nat.le_refl _, fun _ _ => rfl, fun _ _ => rfl⟩ hI.bstartLe hI.dicts hI.attrF hI.attrP hI.ents
+    (hI.thr tid)
+
 /-- `cache[key] = e` into an existing dict -/
 theorem dinv_store {c : CCfg2} {s : St} (d : Nat) (key : Key) (e : Entry) (hI : DInv c s)
     (hd : d < s.nextId) (hev : EVs s (c.srcOf key) e) (hep : s.ep d ≤ e.tr) : DInv c (store s d key e) := by
@@ -160,7 +171,7 @@ theorem ext_storeM (c : CCfg2) (s : St) (d : Nat) (key : Key) (e : Entry) : Ext 
   unfold storeM
   split <;> exact ⟨Nat.le_refl _, fun _ _ => rfl, Nat.le_refl _, fun _ _ => rfl, fun _ _ => rfl⟩
 
-theorem ext_act (s : St) (l : Lvl) : Ext s (actSt s l) := by
+theorem ext_act (s : St) (tid : Nat) (l : Lvl) : Ext s (actSt s tid l) := by
   have hb : ∀ d, d < s.nextId → (if d = s.nextId then s.now else s.born d) = s.born d := by
     intro d hd; have : d ≠ s.nextId := Nat.ne_of_lt hd; simp [this]
   have he : ∀ d, d < s.nextId → (if d = s.nextId then s.bstart else s.ep d) = s.ep d := by
@@ -168,18 +179,18 @@ theorem ext_act (s : St) (l : Lvl) : Ext s (actSt s l) := by
   cases l <;> exact ⟨Nat.le_refl _, fun _ _ => rfl, Nat.le_succ _, hb, he⟩
 
 /-- `obj._cache = {}`: a fresh, empty dict of the current block becomes the attribute -/
-theorem dinv_act {c : CCfg2} {s : St} (l : Lvl) (hI : DInv c s) : DInv c (actSt s l) := by
-  have hext := ext_act s l
-  have hnow : (actSt s l).now = s.now := by cases l <;> rfl
-  have hbs : (actSt s l).bstart = s.bstart := by cases l <;> rfl
-  have hnx : (actSt s l).nextId = s.nextId + 1 := by cases l <;> rfl
-  have hborn : (actSt s l).born = fun d => if d = s.nextId then s.now else s.born d := by cases l <;> rfl
-  have hep : (actSt s l).ep = fun d => if d = s.nextId then s.bstart else s.ep d := by cases l <;> rfl
-  have hents : (actSt s l).ents = fun d => if d = s.nextId then (fun _ => none) else s.ents d := by
+theorem dinv_act {c : CCfg2} {s : St} (tid : Nat) (l : Lvl) (hI : DInv c s) : DInv c (actSt s tid l) := by
+  have hext := ext_act s tid l
+  have hnow : (actSt s tid l).now = s.now := by cases l <;> rfl
+  have hbs : (actSt s tid l).bstart = s.bstart := by cases l <;> rfl
+  have hnx : (actSt s tid l).nextId = s.nextId + 1 := by cases l <;> rfl
+  have hborn : (actSt s tid l).born = fun d => if d = s.nextId then s.now else s.born d := by cases l <;> rfl
+  have hep : (actSt s tid l).ep = fun d => if d = s.nextId then s.bstart else s.ep d := by cases l <;> rfl
+  have hents : (actSt s tid l).ents = fun d => if d = s.nextId then (fun _ => none) else s.ents d := by
     cases l <;> rfl
-  have hthr : (actSt s l).thr = s.thr := by cases l <;> rfl
+  have hthr : (actSt s tid l).thr = s.thr := by cases l <;> rfl
   have hat : ∀ d, (d = s.nextId ∨ (d < s.nextId ∧ s.ep d = s.bstart)) →
-      d < (actSt s l).nextId ∧ (actSt s l).ep d = (actSt s l).bstart := by
+      d < (actSt s tid l).nextId ∧ (actSt s tid l).ep d = (actSt s tid l).bstart := by
     intro d hd
     rw [hnx, hep, hbs]
     cases hd with
@@ -244,9 +255,12 @@ theorem cstep_dinv {c : CCfg2} {s s1 : St} (tid : Nat) (hI : DInv c s)
     obtain ⟨a, b⟩ := hT
     split at h
     · rename_i d hd
-      simp only [Option.some.injEq] at h; subst h
-      obtain ⟨x, _⟩ := hI.attrF d hd
-      exact dinv_setPc tid _ hI ⟨a, b, Nat.le_refl _, x, (hI.dicts d x).1⟩
+      split at h
+      · simp only [Option.some.injEq] at h; subst h
+        exact dinv_setPc tid _ hI ⟨b, fun _ _ _ hh => by cases hh⟩
+      · simp only [Option.some.injEq] at h; subst h
+        obtain ⟨x, _⟩ := hI.attrF d hd
+        exact dinv_setPc tid _ hI ⟨a, b, Nat.le_refl _, x, (hI.dicts d x).1⟩
     · simp only [Option.some.injEq] at h; subst h
       exact dinv_setPc tid _ hI ⟨b, fun _ _ _ hh => by cases hh⟩
   | f1 f g cs d t0 =>
@@ -269,10 +283,13 @@ theorem cstep_dinv {c : CCfg2} {s s1 : St} (tid : Nat) (hI : DInv c s)
     split at h
     · split at h
       · rename_i pd hpd
-        simp only [Option.some.injEq] at h; subst h
-        obtain ⟨x, y⟩ := hI.attrP pd hpd
-        refine dinv_setPc tid _ hI ⟨b, ⟨a, Nat.le_refl _, x, (hI.dicts pd x).1⟩, fun f d t hh => ?_⟩
-        rw [y]; exact (hI.dicts d (b f d t hh).2.2.2.1).2.2
+        split at h
+        · simp only [Option.some.injEq] at h; subst h
+          exact dinv_setPc tid _ hI ⟨a, b, fun _ _ hh => by cases hh⟩
+        · simp only [Option.some.injEq] at h; subst h
+          obtain ⟨x, y⟩ := hI.attrP pd hpd
+          refine dinv_setPc tid _ hI ⟨b, ⟨a, Nat.le_refl _, x, (hI.dicts pd x).1⟩, fun f d t hh => ?_⟩
+          rw [y]; exact (hI.dicts d (b f d t hh).2.2.2.1).2.2
       · simp only [Option.some.injEq] at h; subst h
         exact dinv_setPc tid _ hI ⟨a, b, fun _ _ hh => by cases hh⟩
     · simp only [Option.some.injEq] at h; subst h
@@ -341,7 +358,7 @@ theorem ostep_dinv {c : CCfg2} {s s1 : St} (tid : Nat) (hI : DInv c s)
     | nil => simp only [ostep, Option.some.injEq] at h; subst h; exact dinv_setPh tid _ hI
     | cons l rest =>
       simp only [ostep, Option.some.injEq] at h; subst h
-      exact dinv_setPh tid _ (dinv_act l hI)
+      exact dinv_setPh tid _ (dinv_act tid l hI)
   | deact rest =>
     cases rest with
     | nil => simp only [ostep, Option.some.injEq] at h; subst h; exact dinv_setPh tid _ hI
@@ -353,8 +370,12 @@ theorem ostep_dinv {c : CCfg2} {s s1 : St} (tid : Nat) (hI : DInv c s)
       · simp only [Option.some.injEq] at h; subst h
         exact dinv_setPh tid _ hI
   | release =>
-    simp only [ostep, Option.some.injEq] at h; subst h
-    exact dinv_setPh tid _ (dinv_lock _ hI)
+    simp only [ostep] at h
+    split at h
+    · simp only [Option.some.injEq] at h; subst h
+      exact dinv_setPh tid _ (dinv_lock _ hI)
+    · simp only [Option.some.injEq] at h; subst h
+      exact dinv_popTo tid _ _ hI
   | out => simp [ostep] at h
   | inBlock => simp [ostep] at h
   | inNoop => simp [ostep] at h
@@ -362,28 +383,57 @@ theorem ostep_dinv {c : CCfg2} {s s1 : St} (tid : Nat) (hI : DInv c s)
 
 /- ------------------------------------------------------------------ lock protocol -/
 
-def OwnerOK (dg : Bool) (aF aP : Option Nat) : Phase → Prop
+/-- a no-op level is never the outermost one -/
+def stackOK : List Bool → Prop
+  | [] => True
+  | [b] => b = true
+  | _ :: b :: rest => stackOK (b :: rest)
+
+theorem stackOK_push_true {st : List Bool} (h : stackOK st) : stackOK (true :: st) := by
+  cases st with
+  | nil => rfl
+  | cons b r => exact h
+
+theorem stackOK_push_false {st : List Bool} (h : stackOK st) (hne : st ≠ []) : stackOK (false :: st) := by
+  cases st with
+  | nil => exact absurd rfl hne
+  | cons b r => exact h
+
+theorem stackOK_tail {b : Bool} {st : List Bool} (h : stackOK (b :: st)) : stackOK st := by
+  cases st with
+  | nil => trivial
+  | cons b' r => exact h
+
+theorem stackOK_false_ne {st : List Bool} (h : stackOK (false :: st)) : st ≠ [] := by
+  cases st with
+  | nil => cases h
+  | cons b r => simp
+
+def OwnerOK (dg : Bool) (aF aP : Option Nat) (stack : List Bool) : Phase → Prop
   | .out => False
-  | .test => aF = none ∧ aP = none
+  | .test => stack = [] → aF = none ∧ aP = none
   | .act _ => True
   | .inBlock => True
-  | .inNoop => False
+  | .inNoop => stack ≠ []
   | .deact rest => (Lvl.front ∉ rest → aF = none) ∧ (Lvl.proc ∉ rest → aP = none)
-  | .release => aF = none ∧ aP = none
+  | .release => stack = [] → aF = none ∧ aP = none
   | .oerr => dg = false
 
 structure LInv (c : CCfg2) (s : St) : Prop where
   own : ∀ i, (s.thr i).ph ≠ .out → s.lock = some i
   free : s.lock = none → s.attrF = none ∧ s.attrP = none
-  owner : ∀ i, s.lock = some i → OwnerOK c.delGuard s.attrF s.attrP (s.thr i).ph
+  owner : ∀ i, s.lock = some i → OwnerOK c.delGuard s.attrF s.attrP (s.thr i).stack (s.thr i).ph
+  stk : ∀ i, stackOK (s.thr i).stack
 
-/-- a step that touches neither the lock, nor the attributes, nor any phase -/
+/-- a step that touches neither the lock, nor the attributes, nor any phase or stack -/
 theorem linv_congr {c : CCfg2} {s s' : St} (h : LInv c s) (hl : s'.lock = s.lock) (hF : s'.attrF = s.attrF)
-    (hP : s'.attrP = s.attrP) (hph : ∀ i, (s'.thr i).ph = (s.thr i).ph) : LInv c s' := by
-  refine ⟨fun i hi => ?_, fun hn => ?_, fun i hi => ?_⟩
+    (hP : s'.attrP = s.attrP) (hph : ∀ i, (s'.thr i).ph = (s.thr i).ph)
+    (hst : ∀ i, (s'.thr i).stack = (s.thr i).stack) : LInv c s' := by
+  refine ⟨fun i hi => ?_, fun hn => ?_, fun i hi => ?_, fun i => ?_⟩
   · rw [hl]; rw [hph] at hi; exact h.own i hi
   · rw [hl] at hn; rw [hF, hP]; exact h.free hn
-  · rw [hl] at hi; rw [hF, hP, hph]; exact h.owner i hi
+  · rw [hl] at hi; rw [hF, hP, hph, hst]; exact h.owner i hi
+  · rw [hst]; exact h.stk i
 
 theorem ph_setPc (s : St) (tid : Nat) (pc : PC) (i : Nat) : ((setPc s tid pc).thr i).ph = (s.thr i).ph := by
   show (if i = tid then { s.thr tid with pc := pc } else s.thr i).ph = (s.thr i).ph
@@ -391,11 +441,17 @@ theorem ph_setPc (s : St) (tid : Nat) (pc : PC) (i : Nat) : ((setPc s tid pc).th
   · subst h; simp
   · simp [h]
 
+theorem st_setPc (s : St) (tid : Nat) (pc : PC) (i : Nat) : ((setPc s tid pc).thr i).stack = (s.thr i).stack := by
+  show (if i = tid then { s.thr tid with pc := pc } else s.thr i).stack = (s.thr i).stack
+  by_cases h : i = tid
+  · subst h; simp
+  · simp [h]
+
 theorem linv_setPc {c : CCfg2} {s : St} (tid : Nat) (pc : PC) (h : LInv c s) : LInv c (setPc s tid pc) :=
-  linv_congr h rfl rfl rfl (ph_setPc s tid pc)
+  linv_congr h rfl rfl rfl (ph_setPc s tid pc) (st_setPc s tid pc)
 
 theorem linv_store {c : CCfg2} {s : St} (d : Nat) (key : Key) (e : Entry) (h : LInv c s) : LInv c (store s d key e) :=
-  linv_congr h rfl rfl rfl (fun _ => rfl)
+  linv_congr h rfl rfl rfl (fun _ => rfl) (fun _ => rfl)
 
 theorem linv_storeM {c : CCfg2} {s : St} (d : Nat) (key : Key) (e : Entry) (h : LInv c s) :
     LInv c (storeM c s d key e) := by
@@ -414,14 +470,18 @@ theorem cstep_linv {c : CCfg2} {s s1 : St} (tid : Nat) (pc : PC) (hI : LInv c s)
   | idle => simp [cstep] at h
   | f0 f g cs =>
     simp only [cstep] at h
-    split at h <;> (simp only [Option.some.injEq] at h; subst h; exact linv_setPc tid _ hI)
+    split at h
+    · split at h <;> (simp only [Option.some.injEq] at h; subst h; exact linv_setPc tid _ hI)
+    · simp only [Option.some.injEq] at h; subst h; exact linv_setPc tid _ hI
   | f1 f g cs d t0 =>
     simp only [cstep] at h
     split at h <;> (simp only [Option.some.injEq] at h; subst h; exact linv_setPc tid _ hI)
   | p0 g cs fd =>
     simp only [cstep] at h
     split at h
-    · split at h <;> (simp only [Option.some.injEq] at h; subst h; exact linv_setPc tid _ hI)
+    · split at h
+      · split at h <;> (simp only [Option.some.injEq] at h; subst h; exact linv_setPc tid _ hI)
+      · simp only [Option.some.injEq] at h; subst h; exact linv_setPc tid _ hI
     · simp only [Option.some.injEq] at h; subst h; exact linv_setPc tid _ hI
   | p1 g cs fd pd t0 =>
     simp only [cstep] at h
@@ -444,12 +504,14 @@ theorem cstep_linv {c : CCfg2} {s s1 : St} (tid : Nat) (pc : PC) (hI : LInv c s)
   | ret g cs e how => simp only [cstep, Option.some.injEq] at h; subst h; exact linv_setPc tid _ hI
   | retErr g cs => simp only [cstep, Option.some.injEq] at h; subst h; exact linv_setPc tid _ hI
 
-/-- the lock owner `tid` moves to phase `ph'` (lock kept or just taken) -/
+/-- the lock owner `tid` moves to phase `ph'` (lock kept or just taken); the stacks of the other threads are kept -/
 theorem linv_owner {c : CCfg2} {s s' : St} (tid : Nat) (ph' : Phase) (h : LInv c s)
     (hl' : s'.lock = some tid) (hl : s.lock = some tid ∨ s.lock = none)
     (hph : ∀ i, (s'.thr i).ph = if i = tid then ph' else (s.thr i).ph)
-    (hok : OwnerOK c.delGuard s'.attrF s'.attrP ph') : LInv c s' := by
-  refine ⟨fun i hi => ?_, fun hn => ?_, fun i hi => ?_⟩
+    (hst : ∀ i, i ≠ tid → (s'.thr i).stack = (s.thr i).stack)
+    (hsk : stackOK (s'.thr tid).stack)
+    (hok : OwnerOK c.delGuard s'.attrF s'.attrP (s'.thr tid).stack ph') : LInv c s' := by
+  refine ⟨fun i hi => ?_, fun hn => ?_, fun i hi => ?_, fun i => ?_⟩
   · by_cases e : i = tid
     · rw [e]; exact hl'
     · rw [hph] at hi; simp only [e, if_false] at hi
@@ -460,10 +522,47 @@ theorem linv_owner {c : CCfg2} {s s' : St} (tid : Nat) (ph' : Phase) (h : LInv c
   · rw [hl'] at hn; cases hn
   · rw [hl'] at hi; simp only [Option.some.injEq] at hi; subst hi
     rw [hph]; simp only [if_true]; exact hok
+  · by_cases e : i = tid
+    · rw [e]; exact hsk
+    · rw [hst i e]; exact h.stk i
 
 theorem ph_setPh (s : St) (tid : Nat) (ph : Phase) (i : Nat) :
     ((setPh s tid ph).thr i).ph = if i = tid then ph else (s.thr i).ph := by
   show (if i = tid then { s.thr tid with ph := ph } else s.thr i).ph = _
+  by_cases h : i = tid
+  · subst h; simp
+  · simp [h]
+
+theorem st_setPh (s : St) (tid : Nat) (ph : Phase) (i : Nat) : ((setPh s tid ph).thr i).stack = (s.thr i).stack := by
+  show (if i = tid then { s.thr tid with ph := ph } else s.thr i).stack = _
+  by_cases h : i = tid
+  · subst h; simp
+  · simp [h]
+
+theorem ph_popTo (s : St) (tid : Nat) (ph : Phase) (rest : List Bool) (i : Nat) :
+    ((popTo s tid ph rest).thr i).ph = if i = tid then ph else (s.thr i).ph := by
+  show (if i = tid then { s.thr tid with ph := ph, stack := rest } else s.thr i).ph = _
+  by_cases h : i = tid
+  · subst h; simp
+  · simp [h]
+
+theorem st_popTo (s : St) (tid : Nat) (ph : Phase) (rest : List Bool) (i : Nat) :
+    ((popTo s tid ph rest).thr i).stack = if i = tid then rest else (s.thr i).stack := by
+  show (if i = tid then { s.thr tid with ph := ph, stack := rest } else s.thr i).stack = _
+  by_cases h : i = tid
+  · subst h; simp
+  · simp [h]
+
+theorem ph_pushTest (s : St) (tid : Nat) (b : Bool) (i : Nat) :
+    ((pushTest s tid b).thr i).ph = if i = tid then .test else (s.thr i).ph := by
+  show (if i = tid then { s.thr tid with ph := Phase.test, stack := b :: (s.thr tid).stack } else s.thr i).ph = _
+  by_cases h : i = tid
+  · subst h; simp
+  · simp [h]
+
+theorem st_pushTest (s : St) (tid : Nat) (b : Bool) (i : Nat) :
+    ((pushTest s tid b).thr i).stack = if i = tid then b :: (s.thr tid).stack else (s.thr i).stack := by
+  show (if i = tid then { s.thr tid with ph := Phase.test, stack := b :: (s.thr tid).stack } else s.thr i).stack = _
   by_cases h : i = tid
   · subst h; simp
   · simp [h]
@@ -481,7 +580,8 @@ theorem ostep_linv {c : CCfg2} {s s1 : St} (tid : Nat) (hI : LInv c s)
     (h : ostep c s tid (s.thr tid).ph = some s1) : LInv c s1 := by
   have hown := hI.own tid
   have hownr := hI.owner tid
-  generalize (s.thr tid).ph = ph at h hown hownr
+  have hsk := hI.stk tid
+  generalize hph : (s.thr tid).ph = ph at h hown hownr
   cases ph with
   | out => simp [ostep] at h
   | inBlock => simp [ostep] at h
@@ -492,36 +592,51 @@ theorem ostep_linv {c : CCfg2} {s s1 : St} (tid : Nat) (hI : LInv c s)
     have hok := hownr hl
     simp only [ostep] at h
     split at h
-    · rename_i d hd; rw [hok.1] at hd; cases hd
+    · rename_i d hd
+      simp only [Option.some.injEq] at h; subst h
+      refine linv_owner tid _ hI hl (Or.inl hl) (ph_setPh s tid _) (fun i _ => st_setPh s tid _ i)
+        (by rw [st_setPh]; exact hsk) ?_
+      rw [st_setPh]
+      intro hs
+      have := (hok hs).1
+      have hd' : s.attrF = some d := hd
+      rw [this] at hd'; cases hd'
     · simp only [Option.some.injEq] at h; subst h
-      exact linv_owner tid _ hI hl (Or.inl hl) (ph_setPh s tid _) trivial
+      exact linv_owner tid _ hI hl (Or.inl hl) (ph_setPh s tid _) (fun i _ => st_setPh s tid _ i)
+        (by rw [st_setPh]; exact hsk) trivial
   | act rest =>
     have hl := hown (by simp)
     cases rest with
     | nil =>
       simp only [ostep, Option.some.injEq] at h; subst h
-      exact linv_owner tid _ hI hl (Or.inl hl) (ph_setPh s tid _) trivial
+      exact linv_owner tid _ hI hl (Or.inl hl) (ph_setPh s tid _) (fun i _ => st_setPh s tid _ i)
+        (by rw [st_setPh]; exact hsk) trivial
     | cons l rest =>
       simp only [ostep, Option.some.injEq] at h; subst h
-      have hthr : (actSt s l).thr = s.thr := by cases l <;> rfl
-      have hlk : (actSt s l).lock = s.lock := by cases l <;> rfl
-      refine linv_owner tid (.act rest) hI (by show (actSt s l).lock = some tid; rw [hlk]; exact hl) (Or.inl hl)
-        (fun i => ?_) trivial
-      rw [ph_setPh]; rw [hthr]
+      have hthr : (actSt s tid l).thr = s.thr := by cases l <;> rfl
+      have hlk : (actSt s tid l).lock = s.lock := by cases l <;> rfl
+      refine linv_owner tid (.act rest) hI (by show (actSt s tid l).lock = some tid; rw [hlk]; exact hl) (Or.inl hl)
+        (fun i => ?_) (fun i _ => ?_) ?_ trivial
+      · rw [ph_setPh]; rw [hthr]
+      · rw [st_setPh]; rw [hthr]
+      · rw [st_setPh]; rw [hthr]; exact hsk
   | deact rest =>
     have hl := hown (by simp)
     have hok := hownr hl
     cases rest with
     | nil =>
       simp only [ostep, Option.some.injEq] at h; subst h
-      exact linv_owner tid _ hI hl (Or.inl hl) (ph_setPh s tid _)
-        ⟨hok.1 (by simp), hok.2 (by simp)⟩
+      exact linv_owner tid _ hI hl (Or.inl hl) (ph_setPh s tid _) (fun i _ => st_setPh s tid _ i)
+        (by rw [st_setPh]; exact hsk) (fun _ => ⟨hok.1 (by simp), hok.2 (by simp)⟩)
     | cons l rest =>
       simp only [ostep] at h
       split at h
       · simp only [Option.some.injEq] at h; subst h
-        refine linv_owner tid (.deact rest) hI (by cases l <;> exact hl) (Or.inl hl) (fun i => ?_) ?_
-        · rw [ph_setPh]; cases l <;> rfl
+        have hthr : (delAttr s l).thr = s.thr := by cases l <;> rfl
+        refine linv_owner tid (.deact rest) hI (by cases l <;> exact hl) (Or.inl hl) (fun i => ?_) (fun i _ => ?_) ?_ ?_
+        · rw [ph_setPh]; rw [hthr]
+        · rw [st_setPh]; rw [hthr]
+        · rw [st_setPh]; rw [hthr]; exact hsk
         · cases l with
           | front =>
             exact ⟨fun _ => rfl, fun hn => hok.2 (mem_of_not_mem_tail hn (by decide))⟩
@@ -529,7 +644,8 @@ theorem ostep_linv {c : CCfg2} {s s1 : St} (tid : Nat) (hI : LInv c s)
             exact ⟨fun hn => hok.1 (mem_of_not_mem_tail hn (by decide)), fun _ => rfl⟩
       · rename_i hnone
         simp only [Option.some.injEq] at h; subst h
-        refine linv_owner tid _ hI hl (Or.inl hl) (ph_setPh s tid _) ?_
+        refine linv_owner tid _ hI hl (Or.inl hl) (ph_setPh s tid _) (fun i _ => st_setPh s tid _ i)
+          (by rw [st_setPh]; exact hsk) ?_
         cases hg : c.delGuard
         · exact rfl
         · simp only [if_true]
@@ -541,15 +657,29 @@ theorem ostep_linv {c : CCfg2} {s s1 : St} (tid : Nat) (hI : LInv c s)
   | release =>
     have hl := hown (by simp)
     have hok := hownr hl
-    simp only [ostep, Option.some.injEq] at h; subst h
-    refine ⟨fun i hi => ?_, fun _ => hok, fun i hi => by cases hi⟩
-    rw [ph_setPh] at hi
-    by_cases e : i = tid
-    · simp [e] at hi
-    · simp only [e, if_false] at hi
-      have := hI.own i hi
-      rw [hl] at this; simp only [Option.some.injEq] at this
-      exact absurd this.symm e
+    simp only [ostep] at h
+    split at h
+    · rename_i hs
+      simp only [Option.some.injEq] at h; subst h
+      refine ⟨fun i hi => ?_, fun _ => hok hs, fun i hi => (by cases hi), fun i => ?_⟩
+      · rw [ph_setPh] at hi
+        by_cases e : i = tid
+        · simp [e] at hi
+        · simp only [e, if_false] at hi
+          have := hI.own i hi
+          rw [hl] at this; simp only [Option.some.injEq] at this
+          exact absurd this.symm e
+      · rw [st_setPh]; exact hI.stk i
+    · rename_i b rest hs
+      simp only [Option.some.injEq] at h; subst h
+      rw [hs] at hsk
+      refine linv_owner tid _ hI hl (Or.inl hl) (ph_popTo s tid _ rest) (fun i hi => ?_) ?_ ?_
+      · rw [st_popTo]; simp [hi]
+      · rw [st_popTo]; simp only [if_true]; exact stackOK_tail hsk
+      · rw [st_popTo]; simp only [if_true]
+        cases b with
+        | true => trivial
+        | false => exact stackOK_false_ne hsk
 
 /- ------------------------------------------------------------------ both together -/
 
@@ -589,9 +719,32 @@ theorem tstep_inv {c : CCfg2} (hc : c.Covers) {s s1 : St} (tid : Nat) (ch : Choi
           rw [hF] at this; cases this
         · have : s.attrP = some d := hd
           rw [hP] at this; cases this
-      · refine linv_owner tid .test hI.l rfl (Or.inr hlk) (fun i => ?_) ⟨hF, hP⟩
-        rw [ph_setPh]
-    · cases h
+      · refine linv_owner tid .test hI.l rfl (Or.inr hlk) (fun i => ?_) (fun i _ => ?_) ?_ (fun _ => ⟨hF, hP⟩)
+        · rw [ph_setPh]
+        · rw [st_setPh]
+        · rw [st_setPh]; exact hI.l.stk tid
+    · split at h
+      · rename_i hcnd
+        obtain ⟨_, hlk, hph⟩ := hcnd
+        simp only [Option.some.injEq] at h; subst h
+        refine ⟨dinv_pushTest tid true hI.d, linv_owner tid .test hI.l hlk (Or.inl hlk) (ph_pushTest s tid true)
+          (fun i hi => ?_) ?_ ?_⟩
+        · rw [st_pushTest]; simp [hi]
+        · rw [st_pushTest]; simp only [if_true]; exact stackOK_push_true (hI.l.stk tid)
+        · rw [st_pushTest]; simp only [if_true]; intro hh; cases hh
+      · split at h
+        · rename_i hcnd
+          obtain ⟨_, hlk, hph⟩ := hcnd
+          simp only [Option.some.injEq] at h; subst h
+          have hne : (s.thr tid).stack ≠ [] := by
+            have := hI.l.owner tid hlk
+            rw [hph] at this; exact this
+          refine ⟨dinv_pushTest tid false hI.d, linv_owner tid .test hI.l hlk (Or.inl hlk) (ph_pushTest s tid false)
+            (fun i hi => ?_) ?_ ?_⟩
+          · rw [st_pushTest]; simp [hi]
+          · rw [st_pushTest]; simp only [if_true]; exact stackOK_push_false (hI.l.stk tid) hne
+          · rw [st_pushTest]; simp only [if_true]; intro hh; cases hh
+        · cases h
   | beginExit =>
     simp only [tstep] at h
     split at h
@@ -603,10 +756,15 @@ theorem tstep_inv {c : CCfg2} (hc : c.Covers) {s s1 : St} (tid : Nat) (ch : Choi
         simp only [Option.some.injEq] at h; subst h
         have hl := hown (by simp)
         exact ⟨dinv_setPh tid _ hI.d, linv_owner tid _ hI.l hl (Or.inl hl) (ph_setPh s tid _)
+          (fun i _ => st_setPh s tid _ i) (by rw [st_setPh]; exact hI.l.stk tid)
           ⟨fun hn => absurd hc.1 hn, fun hn => absurd hc.2 hn⟩⟩
       | inNoop =>
+        simp only [Option.some.injEq] at h; subst h
         have hl := hown (by simp)
-        exact absurd (hownr hl) (by simp [OwnerOK])
+        have hne : (s.thr tid).stack ≠ [] := hownr hl
+        exact ⟨dinv_setPh tid _ hI.d, linv_owner tid _ hI.l hl (Or.inl hl) (ph_setPh s tid _)
+          (fun i _ => st_setPh s tid _ i) (by rw [st_setPh]; exact hI.l.stk tid)
+          (by rw [st_setPh]; exact fun hh => absurd hh hne)⟩
       | out => cases h
       | test => cases h
       | act r => cases h
@@ -642,7 +800,7 @@ theorem histNow_tick (s : St) : ∀ g, (tick s).hist (tick s).now g = s.ver g :=
 
 theorem inv_init (c : CCfg2) : Inv c St.init := by
   refine ⟨⟨Nat.le_refl _, fun d hd => absurd hd (Nat.not_lt_zero _), fun d hd => ?_, fun d hd => ?_,
-    fun d k e he => ?_, fun i => trivial⟩, ⟨fun i hi => ?_, fun _ => ⟨rfl, rfl⟩, fun i hi => ?_⟩, fun g => rfl⟩
+    fun d k e he => ?_, fun i => trivial⟩, ⟨fun i hi => ?_, fun _ => ⟨rfl, rfl⟩, fun i hi => ?_, fun i => trivial⟩, fun g => rfl⟩
   · simp [St.init] at hd
   · simp [St.init] at hd
   · simp [St.init] at he
@@ -660,13 +818,13 @@ theorem step_inv {c : CCfg2} (hc : c.Covers) {s s' : St} (a : Action) (hI : Inv 
     simp only [step, Option.map_eq_some_iff] at h
     obtain ⟨s1, h1, rfl⟩ := h
     obtain ⟨hd, hl⟩ := tstep_inv hc tid ch hI h1
-    exact ⟨dinv_tick hd, linv_congr hl rfl rfl rfl (fun _ => rfl), histNow_tick s1⟩
+    exact ⟨dinv_tick hd, linv_congr hl rfl rfl rfl (fun _ => rfl) (fun _ => rfl), histNow_tick s1⟩
   | setVer g v =>
     simp only [step, Option.some.injEq] at h; subst h
-    exact ⟨dinv_tick (dinv_world _ _ hI.d), linv_congr hI.l rfl rfl rfl (fun _ => rfl), histNow_tick _⟩
+    exact ⟨dinv_tick (dinv_world _ _ hI.d), linv_congr hI.l rfl rfl rfl (fun _ => rfl) (fun _ => rfl), histNow_tick _⟩
   | setDenied g b =>
     simp only [step, Option.some.injEq] at h; subst h
-    exact ⟨dinv_tick (dinv_world _ _ hI.d), linv_congr hI.l rfl rfl rfl (fun _ => rfl), histNow_tick _⟩
+    exact ⟨dinv_tick (dinv_world _ _ hI.d), linv_congr hI.l rfl rfl rfl (fun _ => rfl) (fun _ => rfl), histNow_tick _⟩
 
 theorem reach_inv {c : CCfg2} (hc : c.Covers) {s : St} (h : Reach c s) : Inv c s := by
   induction h with
